@@ -43,17 +43,21 @@ type valSpec struct {
 
 // cfgSpec is one fixture configuration: a look-back validator set and the protocol parameters in force.
 type cfgSpec struct {
-	Name     string
-	Vals     []valSpec
-	ProtoV   uint64   // ValidatorThreshold of the version in force
-	ProtoP   uint64   // ProposerThreshold of the version in force
-	Ths      []uint64 // threshold alphabet a forger may declare (contains ProtoV and ProtoP)
-	Voters   []int    // voters of the honest header (validator ids, 1-based)
-	Prop     int      // proposer of the honest header
-	Natural  bool     // p < 1 under the protocol thresholds: the genesis seed is searched until the honest committee has a quorum
-	Tail     bool     // natural, and moreover one honest voter's VRF output lies in the top 1% of the range (upper-tail branch of choose)
-	SaltHint int      // start of the seed search
-	Pad      int      // filler validators (offline chamber, stake 50): the list is sorted by DESCENDING stake, so they take the list
+	Name      string
+	Vals      []valSpec
+	ProtoV    uint64    // ValidatorThreshold of the version in force
+	ProtoP    uint64    // ProposerThreshold of the version in force
+	Ths       []uint64  // threshold alphabet a forger may declare (contains ProtoV and ProtoP)
+	Voters    []int     // voters of the honest header (validator ids, 1-based)
+	Prop      int       // proposer of the honest header
+	Natural   bool      // p < 1 under the protocol thresholds: the genesis seed is searched until the honest committee has a quorum
+	Tail      bool      // natural, and moreover one honest voter's VRF output lies in the top 1% of the range (upper-tail branch of choose)
+	SaltHint  int       // start of the seed search
+	CertRound bool      // the header under verification is at a certificate round (multiple of params.ACoCHTFrequency)
+	CVals     []valSpec // the CERTIFICATE look-back validator set (same identities, other stakes / status / kind)
+	ProtoC    uint64    // CertValThreshold of the version in force
+	CVoters   []int     // certificate voters of the honest header
+	Pad       int       // filler validators (offline chamber, stake 50): the list is sorted by DESCENDING stake, so they take the list
 	// indices 0..Pad-1 and the modelled validators get indices >= Pad
 }
 
@@ -61,8 +65,10 @@ const (
 	stepProposal  = 1 // ucon.UConStepProposal
 	stepPrevote   = 2 // ucon.Prevote
 	stepPrecommit = 3 // ucon.Precommit
+	stepCert      = 5 // ucon.Certificate
+	nSteps        = 5
 	nIdx          = 2 // round indices 1..nIdx
-	nSeeds        = 2 // seed 1 = the look-back seed of this round, seed 2 = another round's seed
+	nSeeds        = 3 // seed 1 = the look-back seed of this round, seed 2 = another round's seed, seed 3 = the certificate look-back seed
 )
 
 func chamberOnline(vs []valSpec) int64 {
@@ -80,6 +86,8 @@ func configs() []cfgSpec {
 	b := []valSpec{{"chamber", true, 3}, {"chamber", true, 4}, {"chamber", true, 5}, {"chamber", false, 6}, {"house", true, 4}}
 	c := []valSpec{{"chamber", true, 5}, {"chamber", true, 5}, {"house", false, 6}, {"chamber", false, 2}, {"chamber", true, 2}}
 	n := []valSpec{{"chamber", true, 12}, {"chamber", true, 10}, {"chamber", true, 8}, {"chamber", false, 10}, {"house", true, 9}}
+	ca := []valSpec{{"chamber", true, 3}, {"chamber", true, 5}, {"chamber", false, 2}, {"chamber", true, 4}, {"house", true, 6}}
+	cn := []valSpec{{"chamber", true, 10}, {"chamber", true, 12}, {"chamber", false, 8}, {"chamber", true, 9}, {"house", true, 7}}
 	return []cfgSpec{
 		// degenerate: thresholds = online chamber stake, so p = 1 and every credential selects all of the stake
 		{Name: "degenerate-A", Vals: a, ProtoV: 9, ProtoP: 9, Ths: []uint64{9, 1, 4, 12}, Voters: []int{1, 2}, Prop: 1},
@@ -92,6 +100,12 @@ func configs() []cfgSpec {
 		{Name: "large-L", Vals: a, ProtoV: 9, ProtoP: 9, Ths: []uint64{9, 1, 4, 12}, Voters: []int{1, 2}, Prop: 1, Pad: 63},
 		// natural with a voter in the upper tail of the sortition (VRF output above 0.99 of the range)
 		{Name: "natural-T", Vals: n, ProtoV: 20, ProtoP: 6, Ths: []uint64{20, 6, 2, 30}, Voters: []int{1, 2, 3}, Prop: 2, Natural: true, Tail: true, SaltHint: 2181},
+		// certificate round 3 * ACoCHTFrequency: the stake look-back set (round - 16) and the certificate look-back set (round - 2 * 32768)
+		// differ: validator 3 is online for precommits but OFFLINE in the certificate set, validator 4 the other way round, stakes differ
+		{Name: "cert-D", Vals: a, ProtoV: 9, ProtoP: 9, Ths: []uint64{9, 12, 1, 4, 13}, Voters: []int{1, 2}, Prop: 1,
+			CertRound: true, CVals: ca, ProtoC: 12, CVoters: []int{2, 1}},
+		{Name: "cert-N", Vals: n, ProtoV: 20, ProtoP: 6, Ths: []uint64{20, 6, 24, 2, 32}, Voters: []int{1, 2, 3}, Prop: 1, Natural: true,
+			CertRound: true, CVals: cn, ProtoC: 24, CVoters: []int{1, 2, 4}, SaltHint: 4},
 	}
 }
 
@@ -137,27 +151,41 @@ type cred struct {
 }
 
 type world struct {
-	id      int
-	cfg     cfgSpec
-	nv      int
-	keys    []*fixture.Key   // 1..nv members, nv+1 non-member
-	vrfs    []vrf.PrivateKey // same indexing
-	realIdx []uint32         // index in the sorted look-back validator list (non-member: out of range)
-	total   *big.Int         // online chamber stake as the code reads it
-	genesis *types.Block
-	chain   *stubChain
-	eng     *ucon.Server
-	vld     state.ValidatorReader
-	seeds   [nSeeds + 1]common.Hash
-	creds   map[[4]int]cred // (validator, seed id, step, index) -> VRF evaluation
-	sigs    map[string]bls.Signature
-	seat    [][][][][]int // [v][t][i][s][d], all 1-based with a dummy 0 entry
-	salt    int
+	id       int
+	cfg      cfgSpec
+	nv       int
+	keys     []*fixture.Key   // 1..nv members, nv+1 non-member
+	vrfs     []vrf.PrivateKey // same indexing
+	realIdx  []uint32         // index in the sorted stake look-back validator list (non-member: out of range)
+	crealIdx []uint32         // index in the sorted CERTIFICATE look-back validator list
+	total    *big.Int         // online chamber stake of the stake look-back set
+	ctotal   *big.Int         // online chamber stake of the certificate look-back set
+	round    *big.Int         // round of the header under verification
+	genesis  *types.Block
+	parent   *types.Block
+	seedHdr  *types.Header // look-back header that carries seed 1
+	chain    *stubChain
+	eng      *ucon.Server
+	vld      state.ValidatorReader // stake look-back set
+	cvld     state.ValidatorReader // certificate look-back set
+	seeds    [nSeeds + 1]common.Hash
+	creds    map[[4]int]cred // (validator, seed id, step, index) -> VRF evaluation
+	sigs     map[string]bls.Signature
+	seat     [][][][][]int // [v][t][i][s][d] with the stake look-back set's stake / total, all 1-based with a dummy 0 entry
+	cseat    [][][][][]int // the same with the certificate look-back set's stake / total
+	salt     int
+	csalt    int
 }
 
 var blsMgr = bls.NewBlsManager()
 
 func newWorld(id int, cfg cfgSpec) (*world, error) {
+	if cfg.ProtoC == 0 {
+		cfg.ProtoC = cfg.ProtoV
+	}
+	if cfg.CVals == nil {
+		cfg.CVals = cfg.Vals
+	}
 	w := &world{id: id, cfg: cfg, nv: len(cfg.Vals), creds: map[[4]int]cred{}, sigs: map[string]bls.Signature{}}
 	w.keys = fixture.Keys("c01-"+cfg.Name, w.nv+1+cfg.Pad) // 1..nv modelled, nv+1 stranger, then the fillers
 	w.vrfs = make([]vrf.PrivateKey, w.nv+2)
@@ -169,23 +197,34 @@ func newWorld(id int, cfg cfgSpec) (*world, error) {
 		w.vrfs[i] = sk
 	}
 	yp := params.Versions[params.YouV5] // a copy
-	yp.ProposerThreshold, yp.ValidatorThreshold, yp.CertValThreshold = cfg.ProtoP, cfg.ProtoV, cfg.ProtoV
+	yp.ProposerThreshold, yp.ValidatorThreshold, yp.CertValThreshold = cfg.ProtoP, cfg.ProtoV, cfg.ProtoC
 	if !yp.EnableBls {
 		return nil, fmt.Errorf("fixture expects a BLS-enabled protocol version")
 	}
-	// the look-back seed is searched (credentials depend on keys and seed only) before the genesis state is built
+	// the look-back seeds are searched (credentials depend on keys and seed only) before the states are built
 	w.total = big.NewInt(chamberOnline(cfg.Vals))
+	w.ctotal = big.NewInt(chamberOnline(cfg.CVals))
 	salt := cfg.SaltHint // where the search succeeded when the fixture was written (only a starting point: the conditions are re-checked)
 	for ; ; salt++ {
 		if salt > cfg.SaltHint+20000 {
-			return nil, fmt.Errorf("no genesis seed gives the honest committee of %s the required pattern", cfg.Name)
+			return nil, fmt.Errorf("no look-back seed gives the honest committee of %s the required pattern", cfg.Name)
 		}
-		w.setSeeds(salt)
+		w.setSeeds(salt, 0)
 		if !cfg.Natural || ((!cfg.Tail || w.anyTail()) && w.honestQuorum() && (!cfg.Tail || w.tailVoter() > 0)) {
 			break
 		}
 	}
 	w.salt = salt
+	for csalt := 0; cfg.CertRound; csalt++ {
+		if csalt > 20000 {
+			return nil, fmt.Errorf("no certificate look-back seed gives the honest certificate committee of %s an exact quorum", cfg.Name)
+		}
+		w.setSeeds(salt, csalt)
+		if !cfg.Natural || w.honestCertQuorum() {
+			w.csalt = csalt
+			break
+		}
+	}
 	if err := w.build(&yp); err != nil {
 		return nil, err
 	}
@@ -193,10 +232,11 @@ func newWorld(id int, cfg cfgSpec) (*world, error) {
 	return w, nil
 }
 
-func (w *world) setSeeds(salt int) {
+func (w *world) setSeeds(salt, csalt int) {
 	w.creds = map[[4]int]cred{}
 	w.seeds[1] = common.Hash{0x5d, byte(salt), byte(salt >> 8)}
 	w.seeds[2] = common.Hash{0x77, byte(salt), byte(salt >> 8)}
+	w.seeds[3] = common.Hash{0xce, byte(csalt), byte(csalt >> 8)}
 }
 
 // tailVoter returns an honest voter whose precommit credential of index 1 has a VRF output above 0.99 of the range, whose seat
@@ -205,13 +245,13 @@ func (w *world) tailVoter() int {
 	hmax := new(big.Int).Sub(new(big.Int).Lsh(big.NewInt(1), 256), big.NewInt(1))
 	sum := int64(0)
 	for _, v := range w.cfg.Voters {
-		sum += int64(w.seats(v, w.cfg.ProtoV, 1, stepPrecommit, 1))
+		sum += int64(w.seats(v, w.cfg.ProtoV, 1, stepPrecommit, 1, false))
 	}
 	q := int64(w.cfg.ProtoV) * 685 / 1000
 	for _, v := range w.cfg.Voters {
 		c := w.credential(v, 1, stepPrecommit, 1)
 		h := new(big.Int).SetBytes(c.val[:])
-		j := int64(w.seats(v, w.cfg.ProtoV, 1, stepPrecommit, 1))
+		j := int64(w.seats(v, w.cfg.ProtoV, 1, stepPrecommit, 1, false))
 		if new(big.Int).Mul(h, big.NewInt(100)).Cmp(new(big.Int).Mul(hmax, big.NewInt(99))) > 0 && j < w.cfg.Vals[v-1].Stake && sum-j < q {
 			return v
 		}
@@ -231,15 +271,14 @@ func (w *world) anyTail() bool {
 	return false
 }
 
-func (w *world) build(yp *params.YouParams) error {
-	cfg := w.cfg
+func (w *world) genesisValidators(vals []valSpec) core.GenesisValidators {
 	gvals := core.GenesisValidators{}
-	for i := 0; i < cfg.Pad; i++ {
+	for i := 0; i < w.cfg.Pad; i++ {
 		k := w.keys[w.nv+2+i]
 		gvals[k.Addr] = core.GenesisValidator{Name: fmt.Sprintf("f%d", i+1), OperatorAddress: k.Addr, Coinbase: k.Addr,
 			MainPubKey: k.PubComp, BlsPubKey: k.BlsPkB, Token: new(big.Int).Mul(big.NewInt(50), params.StakeUint), Role: params.RoleSenator, Status: params.ValidatorOffline}
 	}
-	for i, v := range cfg.Vals {
+	for i, v := range vals {
 		k := w.keys[i+1]
 		role := params.RoleSenator
 		if v.Kind == "house" {
@@ -253,49 +292,116 @@ func (w *world) build(yp *params.YouParams) error {
 			MainPubKey: k.PubComp, BlsPubKey: k.BlsPkB, Token: new(big.Int).Mul(big.NewInt(v.Stake), params.StakeUint),
 			Role: role, Status: status}
 	}
-	gcons := &ucon.BlockConsensusData{Round: big.NewInt(0), RoundIndex: 1, Seed: w.seeds[1], SortitionProof: []byte{1}, Priority: common.Hash{1},
-		SubUsers: 1, Signature: []byte{}, ProposerThreshold: cfg.ProtoP, ValidatorThreshold: cfg.ProtoV, CertValThreshold: cfg.ProtoV}
-	gcb, err := rlp.EncodeToBytes(gcons)
+	return gvals
+}
+
+func (w *world) consensusBytes(round int64, seed common.Hash, certTh uint64) []byte {
+	c := &ucon.BlockConsensusData{Round: big.NewInt(round), RoundIndex: 1, Seed: seed, SortitionProof: []byte{1}, Priority: common.Hash{1},
+		SubUsers: 1, Signature: []byte{}, ProposerThreshold: w.cfg.ProtoP, ValidatorThreshold: w.cfg.ProtoV, CertValThreshold: certTh}
+	b, err := rlp.EncodeToBytes(c)
 	if err != nil {
-		return err
+		panic(err)
 	}
-	g := &core.Genesis{NetworkId: params.NetworkIdForTestCase, GasLimit: 8000000, Alloc: core.GenesisAlloc{yp.RewardsPoolAddress: {Balance: big.NewInt(1000000)}},
-		Validators: gvals, CurrVersion: params.YouV5, Consensus: gcb, Mixhash: types.UConMixHash}
-	db := youdb.NewMemDatabase()
-	w.genesis = g.ToBlock(db)
-	w.chain = &stubChain{yp: yp, headers: map[uint64]*types.Header{0: w.genesis.Header()}, sdb: state.NewDatabase(db)}
-	w.eng, err = ucon.NewVRFServer(db)
+	return b
+}
+
+// indexOf fills the list positions of the modelled validators in a look-back set.
+func (w *world) indexOf(vld state.ValidatorReader, total *big.Int) ([]uint32, error) {
+	stat, err := vld.GetValidatorsStat()
 	if err != nil {
-		return err
+		return nil, err
 	}
-	w.vld, err = w.chain.GetVldReader(w.genesis.Header().ValRoot)
-	if err != nil {
-		return err
+	if t := stat.GetStakeByKind(params.KindChamber); t.Cmp(total) != 0 {
+		return nil, fmt.Errorf("fixture: online chamber stake is %v, expected %v", t, total)
 	}
-	stat, err := w.vld.GetValidatorsStat()
-	if err != nil {
-		return err
-	}
-	if t := stat.GetStakeByKind(params.KindChamber); t.Cmp(w.total) != 0 {
-		return fmt.Errorf("fixture: online chamber stake is %v, expected %v", t, w.total)
-	}
-	w.realIdx = make([]uint32, w.nv+2)
-	vs := w.vld.GetValidators()
+	idxs := make([]uint32, w.nv+2)
+	vs := vld.GetValidators()
 	for i := 1; i <= w.nv; i++ {
 		idx, ok := vs.GetIndex(w.keys[i].Addr)
 		if !ok {
-			return fmt.Errorf("fixture: validator %d not in the look-back set", i)
+			return nil, fmt.Errorf("fixture: validator %d not in the look-back set", i)
 		}
-		if idx < cfg.Pad {
-			return fmt.Errorf("fixture: modelled validator %d sorts before the fillers (index %d)", i, idx)
+		if idx < w.cfg.Pad {
+			return nil, fmt.Errorf("fixture: modelled validator %d sorts before the fillers (index %d)", i, idx)
 		}
-		w.realIdx[i] = uint32(idx)
+		idxs[i] = uint32(idx)
 	}
-	w.realIdx[w.nv+1] = uint32(vs.Len()) // the first index that is not a member
+	idxs[w.nv+1] = uint32(vs.Len()) // the first index that is not a member
+	return idxs, nil
+}
+
+// build writes the look-back validator set(s) into real validator tries and puts the headers the verifier consults on the stub
+// chain.  Plain configurations: round 1, every look-back is the genesis block.  Certificate configurations: round
+// 3 * ACoCHTFrequency; the verifier reads the parent (round - 1), the seed look-back (round - SeedLookBack), the stake look-back
+// (round - StakeLookBack), the certificate seed look-back (round - ACoCHTFrequency: seed 3, declared CertValThreshold, version)
+// and the certificate stake look-back (round - 2 * ACoCHTFrequency: the certificate validator set).
+func (w *world) build(yp *params.YouParams) error {
+	cfg := w.cfg
+	g := &core.Genesis{NetworkId: params.NetworkIdForTestCase, GasLimit: 8000000, Alloc: core.GenesisAlloc{yp.RewardsPoolAddress: {Balance: big.NewInt(1000000)}},
+		Validators: w.genesisValidators(cfg.Vals), CurrVersion: params.YouV5, Consensus: w.consensusBytes(0, w.seeds[1], cfg.ProtoC), Mixhash: types.UConMixHash}
+	db := youdb.NewMemDatabase()
+	w.genesis = g.ToBlock(db)
+	w.chain = &stubChain{yp: yp, headers: map[uint64]*types.Header{0: w.genesis.Header()}, sdb: state.NewDatabase(db)}
+	var err error
+	if w.eng, err = ucon.NewVRFServer(db); err != nil {
+		return err
+	}
+	if w.vld, err = w.chain.GetVldReader(w.genesis.Header().ValRoot); err != nil {
+		return err
+	}
+	if w.realIdx, err = w.indexOf(w.vld, w.total); err != nil {
+		return err
+	}
+	w.round, w.parent, w.seedHdr, w.cvld, w.crealIdx = big.NewInt(1), w.genesis, w.genesis.Header(), w.vld, w.realIdx
+	if !cfg.CertRound {
+		return nil
+	}
+	// the certificate look-back set: a second state in the same database
+	gc := *g
+	gc.Validators = w.genesisValidators(cfg.CVals)
+	cblock := gc.ToBlock(db)
+	if w.cvld, err = w.chain.GetVldReader(cblock.Header().ValRoot); err != nil {
+		return err
+	}
+	if w.crealIdx, err = w.indexOf(w.cvld, w.ctotal); err != nil {
+		return err
+	}
+	f := int64(params.ACoCHTFrequency)
+	n := 3 * f
+	w.round = big.NewInt(n)
+	gh := w.genesis.Header()
+	mk := func(num int64, valRoot common.Hash, seed common.Hash, certTh uint64) *types.Header {
+		return &types.Header{Number: big.NewInt(num), Time: uint64(num), GasLimit: gh.GasLimit, GasRewards: big.NewInt(0), Subsidy: big.NewInt(0), Extra: []byte{},
+			MixDigest: types.UConMixHash, Root: gh.Root, ValRoot: valRoot, StakingRoot: gh.StakingRoot, CurrVersion: gh.CurrVersion,
+			Consensus: w.consensusBytes(num, seed, certTh)}
+	}
+	other := common.Hash{0xee}
+	w.seedHdr = mk(n-int64(yp.SeedLookBack), gh.ValRoot, w.seeds[1], cfg.ProtoC)
+	w.chain.headers[uint64(n-int64(yp.SeedLookBack))] = w.seedHdr
+	w.chain.headers[uint64(n-int64(yp.StakeLookBack))] = mk(n-int64(yp.StakeLookBack), gh.ValRoot, other, cfg.ProtoC)
+	w.chain.headers[uint64(n-2*f)] = mk(n-2*f, cblock.Header().ValRoot, other, cfg.ProtoC)
+	w.chain.headers[uint64(n-f)] = mk(n-f, gh.ValRoot, w.seeds[3], cfg.ProtoC) // replaced per description (declared CertValThreshold)
+	ph := mk(n-1, gh.ValRoot, other, cfg.ProtoC)
+	w.chain.headers[uint64(n-1)] = ph
+	w.parent = types.NewBlockWithHeader(ph)
+	// the genesis block of this stub chain must not be what any look-back resolves to
 	return nil
 }
 
-func (w *world) stake(v int) *big.Int { return big.NewInt(w.cfg.Vals[v-1].Stake) }
+func (w *world) certHeader(declC uint64) *types.Header {
+	gh := w.genesis.Header()
+	num := w.round.Int64() - int64(params.ACoCHTFrequency)
+	return &types.Header{Number: big.NewInt(num), Time: uint64(num), GasLimit: gh.GasLimit, GasRewards: big.NewInt(0), Subsidy: big.NewInt(0), Extra: []byte{},
+		MixDigest: types.UConMixHash, Root: gh.Root, ValRoot: gh.ValRoot, StakingRoot: gh.StakingRoot, CurrVersion: gh.CurrVersion,
+		Consensus: w.consensusBytes(num, w.seeds[3], declC)}
+}
+
+func (w *world) stake(v int, cert bool) *big.Int {
+	if cert {
+		return big.NewInt(w.cfg.CVals[v-1].Stake)
+	}
+	return big.NewInt(w.cfg.Vals[v-1].Stake)
+}
 
 // credential evaluates validator v's VRF on MakeM(seed d, step s, index i).
 func (w *world) credential(v, d, s, i int) cred {
@@ -309,60 +415,89 @@ func (w *world) credential(v, d, s, i int) cred {
 	return c
 }
 
-// seats is the real sortition result of member v for (threshold, index, step, seed); -1 when the code panics (p > 1).
-func (w *world) seats(v int, th uint64, i, s, d int) (j int) {
+// seats is the real sortition result of member v for (threshold, index, step, seed) with the stake and total of the stake
+// look-back set or (cert) of the certificate look-back set; -1 when the code panics (p > 1).
+func (w *world) seats(v int, th uint64, i, s, d int, cert bool) (j int) {
 	defer func() {
 		if r := recover(); r != nil {
 			j = -1
 		}
 	}()
-	_, _, jj := ucon.VrfSortition(w.vrfs[v], w.seeds[d], uint32(i), uint32(s), th, w.stake(v), w.total)
+	total := w.total
+	if cert {
+		total = w.ctotal
+	}
+	_, _, jj := ucon.VrfSortition(w.vrfs[v], w.seeds[d], uint32(i), uint32(s), th, w.stake(v, cert), total)
 	return int(jj)
 }
 
 func (w *world) honestQuorum() bool {
 	sum := int64(0)
+	min := int64(1 << 30)
 	for _, v := range w.cfg.Voters {
-		j := w.seats(v, w.cfg.ProtoV, 1, stepPrecommit, 1)
+		j := int64(w.seats(v, w.cfg.ProtoV, 1, stepPrecommit, 1, false))
 		if j <= 0 {
 			return false
 		}
-		sum += int64(j)
-	}
-	q := int64(w.cfg.ProtoV) * 685 / 1000
-	// exact quorum: dropping the smallest vote must lose it
-	min := int64(1 << 30)
-	for _, v := range w.cfg.Voters {
-		if j := int64(w.seats(v, w.cfg.ProtoV, 1, stepPrecommit, 1)); j < min {
+		sum += j
+		if j < min {
 			min = j
 		}
 	}
+	q := int64(w.cfg.ProtoV) * 685 / 1000
+	// exact quorum: dropping the smallest vote must lose it
 	// (tail configuration: the quorum must be lost without the tail voter instead -- tailVoter)
-	return sum >= q && (w.cfg.Tail || sum-min < q) && w.seats(w.cfg.Prop, w.cfg.ProtoP, 1, stepProposal, 1) > 0
+	return sum >= q && (w.cfg.Tail || sum-min < q) && w.seats(w.cfg.Prop, w.cfg.ProtoP, 1, stepProposal, 1, false) > 0
 }
 
-func (w *world) table() {
-	w.seat = make([][][][][]int, w.nv+1)
+// honestCertQuorum: the honest certificate committee carries an exact quorum floor(0.585 * CertValThreshold).
+func (w *world) honestCertQuorum() bool {
+	sum := int64(0)
+	min := int64(1 << 30)
+	for _, v := range w.cfg.CVoters {
+		j := int64(w.seats(v, w.cfg.ProtoC, 1, stepCert, 3, true))
+		if j <= 0 {
+			return false
+		}
+		sum += j
+		if j < min {
+			min = j
+		}
+	}
+	q := int64(w.cfg.ProtoC) * 585 / 1000
+	return sum >= q && sum-min < q
+}
+
+func (w *world) tableOf(cert bool) [][][][][]int {
+	seat := make([][][][][]int, w.nv+1)
 	for v := 1; v <= w.nv; v++ {
-		w.seat[v] = make([][][][]int, len(w.cfg.Ths)+1)
+		seat[v] = make([][][][]int, len(w.cfg.Ths)+1)
 		for t := 1; t <= len(w.cfg.Ths); t++ {
-			w.seat[v][t] = make([][][]int, nIdx+1)
+			seat[v][t] = make([][][]int, nIdx+1)
 			for i := 1; i <= nIdx; i++ {
-				w.seat[v][t][i] = make([][]int, 4)
-				for s := 1; s <= 3; s++ {
-					w.seat[v][t][i][s] = make([]int, nSeeds+1)
+				seat[v][t][i] = make([][]int, nSteps+1)
+				for s := 1; s <= nSteps; s++ {
+					seat[v][t][i][s] = make([]int, nSeeds+1)
 					for d := 1; d <= nSeeds; d++ {
-						w.seat[v][t][i][s][d] = w.seats(v, w.cfg.Ths[t-1], i, s, d)
+						seat[v][t][i][s][d] = w.seats(v, w.cfg.Ths[t-1], i, s, d, cert)
 					}
 				}
 			}
 		}
 	}
+	return seat
 }
 
-// fixtureJSON is what the specification knows about the configuration (fixtures.json).
-func (w *world) fixtureJSON() map[string]interface{} {
-	// drop the dummy 0 entries: JSON arrays become 1-based TLA+ sequences
+func (w *world) table() {
+	w.seat = w.tableOf(false)
+	w.cseat = w.seat
+	if w.cfg.CertRound {
+		w.cseat = w.tableOf(true)
+	}
+}
+
+// drop the dummy 0 entries: JSON arrays become 1-based TLA+ sequences
+func (w *world) seatJSON(tab [][][][][]int) []interface{} {
 	seat := make([]interface{}, 0, w.nv)
 	for v := 1; v <= w.nv; v++ {
 		var tv []interface{}
@@ -370,8 +505,8 @@ func (w *world) fixtureJSON() map[string]interface{} {
 			var iv []interface{}
 			for i := 1; i <= nIdx; i++ {
 				var sv []interface{}
-				for s := 1; s <= 3; s++ {
-					sv = append(sv, w.seat[v][t][i][s][1:])
+				for s := 1; s <= nSteps; s++ {
+					sv = append(sv, tab[v][t][i][s][1:])
 				}
 				iv = append(iv, sv)
 			}
@@ -379,25 +514,47 @@ func (w *world) fixtureJSON() map[string]interface{} {
 		}
 		seat = append(seat, tv)
 	}
+	return seat
+}
+
+// positions returns, 1-based and relative to the first modelled validator, the list position of every modelled validator and
+// the inverse (which validator sits at a position).
+func (w *world) positions(idxs []uint32) (pos []int, inv []int) {
+	pos = make([]int, w.nv)
+	inv = make([]int, w.nv)
+	for v := 1; v <= w.nv; v++ {
+		pos[v-1] = int(idxs[v]) - w.cfg.Pad + 1
+		inv[int(idxs[v])-w.cfg.Pad] = v
+	}
+	return
+}
+
+// fixtureJSON is what the specification knows about the configuration (fixtures.json).
+func (w *world) fixtureJSON() map[string]interface{} {
+	sidx, _ := w.positions(w.realIdx)
+	cidx, cpos := w.positions(w.crealIdx)
 	return map[string]interface{}{"name": w.cfg.Name, "vals": w.cfg.Vals, "protoV": w.cfg.ProtoV, "protoP": w.cfg.ProtoP, "ths": w.cfg.Ths,
-		"voters": w.cfg.Voters, "prop": w.cfg.Prop, "total": w.total.Int64(), "seat": seat, "nidx": nIdx,
-		"pad": w.cfg.Pad, "salt": w.salt, "listIndex": w.realIdx[1 : w.nv+1], "tailVoter": w.tailVoter()}
+		"voters": w.cfg.Voters, "prop": w.cfg.Prop, "total": w.total.Int64(), "seat": w.seatJSON(w.seat), "nidx": nIdx,
+		"pad": w.cfg.Pad, "salt": w.salt, "listIndex": w.realIdx[1 : w.nv+1], "tailVoter": w.tailVoter(),
+		"certRound": w.cfg.CertRound, "cvals": w.cfg.CVals, "protoC": w.cfg.ProtoC, "cvoters": append([]int{}, w.cfg.CVoters...), "ctotal": w.ctotal.Int64(),
+		"cseat": w.seatJSON(w.cseat), "sidx": sidx, "cidx": cidx, "cpos": cpos, "round": w.round.Int64(), "csalt": w.csalt}
 }
 
 // ---------------------------------------------------------------- header descriptions
 
-// CredD describes a sortition credential as presented: made by key `By` (0 = the claimed owner) for message
-// (seed Cd, step Cs, index Ci), possibly with a corrupted proof byte, claiming J seats.
+// VoteD describes one entry of a vote list as presented: the sortition proof was made for message (seed Cd, step Cs, index Ci)
+// with the voter's key ("ok"), another member's key ("foreign") or has a flipped byte ("corrupt"); J seats are claimed.
 type VoteD struct {
-	V  int    `json:"v"`  // claimed voter: validator id, nv+1 = an index outside the validator list
+	V  int    `json:"v"`  // the validator whose keys made the vote: validator id, nv+1 = a stranger (index outside the validator list)
 	Ci int    `json:"ci"` // credential: round index
 	Cs int    `json:"cs"` // credential: step
-	Cd int    `json:"cd"` // credential: seed (1 = this round's look-back seed)
+	Cd int    `json:"cd"` // credential: seed (1 = this round's look-back seed, 3 = the certificate look-back seed)
 	Pb string `json:"pb"` // "ok" | "foreign" (proof made with another member's key) | "corrupt"
 	J  int    `json:"j"`  // claimed weight
 	Sb int    `json:"sb"` // BLS signature: 0 = not in the aggregate, 1 = over this block's hash, 2 = over another block's hash
 	Sr int    `json:"sr"` // 1 = this round, 2 = another round
 	Si int    `json:"si"` // round index in the signed payload
+	Ls int    `json:"ls"` // certificate votes: list the VoterIdx was taken from, 1 = certificate look-back set, 2 = stake look-back set
 }
 
 type PropD struct {
@@ -419,7 +576,13 @@ type Desc struct {
 	Prop  PropD   `json:"prop"`
 	Votes []VoteD `json:"votes"`
 	Agg   string  `json:"agg"` // "ok" = sum of the listed signatures | "flip" | "unrelated"
-	D     int     `json:"d"`   // forging depth (informational)
+	Cf    string  `json:"cf"`  // header.Certificate: "list" = the certificate vote list below | "absent" = zero bytes | "std" = what honest
+	// non-certificate blocks carry (an empty list) | "junk" = arbitrary bytes
+	CVotes []VoteD `json:"cvotes"`
+	CAgg   string  `json:"cagg"`
+	DeclC  uint64  `json:"declC"` // CertValThreshold declared by the certificate look-back header (chain context, itself author-declared)
+	CfIdx  int     `json:"cfidx"` // RoundIndex inside the Certificate field (the full verifier ignores it, VerifyAcHeader uses it)
+	D      int     `json:"d"`     // forging depth (informational)
 }
 
 func (w *world) proofFor(owner, d, s, i int, pb string) (common.Hash, []byte) {
@@ -458,14 +621,52 @@ func infinity() []byte {
 	return b
 }
 
-// buildHeader turns a description into a concrete header of round 1 on top of the fixture's genesis.
+// voteList builds the concrete entries and the aggregate of one vote list.
+func (w *world) voteList(vs []VoteD, agg string, cert bool, hashes [3]common.Hash, rounds [3]*big.Int, idx int) ([]ucon.SingleVote, []byte, error) {
+	var votes []ucon.SingleVote
+	var sigs []bls.Signature
+	for _, v := range vs {
+		pos := w.realIdx[v.V]
+		if cert && v.Ls != 2 {
+			pos = w.crealIdx[v.V]
+		}
+		sv := ucon.SingleVote{VoterIdx: pos, Votes: uint32(v.J)}
+		_, sv.Proof = w.proofFor(v.V, v.Cd, v.Cs, v.Ci, v.Pb)
+		votes = append(votes, sv)
+		if v.Sb != 0 {
+			sigs = append(sigs, w.sign(v.V, payload(hashes[v.Sb], rounds[v.Sr], v.Si)))
+		}
+	}
+	asig := infinity()
+	if len(sigs) > 0 {
+		a, err := blsMgr.Aggregate(sigs)
+		if err != nil {
+			return nil, nil, err
+		}
+		asig = a.Compress().Bytes()
+	}
+	switch agg {
+	case "flip":
+		asig = append([]byte{}, asig...)
+		asig[len(asig)-1] ^= 0x01
+	case "unrelated":
+		asig = w.sign(w.nv+1, payload(hashes[1], rounds[1], idx)).Compress().Bytes()
+	}
+	return votes, asig, nil
+}
+
+// buildHeader turns a description into a concrete header of the configuration's round on top of the stub chain.
 func (w *world) buildHeader(d *Desc) (*types.Header, error) {
 	g := w.genesis.Header()
-	round := big.NewInt(1)
+	round := w.round
 	pk := w.keys[d.Prop.P]
-	h := &types.Header{ParentHash: g.Hash(), Number: round, Time: g.Time + 10, Coinbase: pk.Addr, GasLimit: g.GasLimit,
+	ph := w.parent.Header()
+	h := &types.Header{ParentHash: ph.Hash(), Number: round, Time: ph.Time + 10, Coinbase: pk.Addr, GasLimit: g.GasLimit,
 		GasRewards: big.NewInt(0), Subsidy: big.NewInt(0), Extra: []byte{}, MixDigest: types.UConMixHash,
 		Root: g.Root, ValRoot: g.ValRoot, StakingRoot: g.StakingRoot, CurrVersion: g.CurrVersion}
+	if w.cfg.CertRound {
+		h.ChtRoot, h.BltRoot = []byte{0xc4}, []byte{0xb1} // certificate-round headers carry the CHT / bloom-trie roots
+	}
 	val, proof := w.proofFor(d.Prop.P, d.Prop.Cd, d.Prop.Cs, d.Prop.Ci, d.Prop.Pb)
 	prio := ucon.VrfComputePriority(val, uint32(d.Prop.J))
 	if d.Prop.Prio != "ok" {
@@ -478,7 +679,7 @@ func (w *world) buildHeader(d *Desc) (*types.Header, error) {
 	}
 	nseed, _ := ucon.ComputeSeed(w.vrfs[d.Prop.P], round, uint32(d.Pidx), w.seeds[1])
 	cd := &ucon.BlockConsensusData{Round: round, RoundIndex: uint32(d.Pidx), Seed: nseed, SortitionProof: proof, Priority: prio,
-		SubUsers: uint32(d.Prop.J), ProposerThreshold: d.DeclP, ValidatorThreshold: d.DeclV, CertValThreshold: w.cfg.ProtoV}
+		SubUsers: uint32(d.Prop.J), ProposerThreshold: d.DeclP, ValidatorThreshold: d.DeclV, CertValThreshold: w.cfg.ProtoC}
 	if err := cd.SetSignature(pk.Priv); err != nil {
 		return nil, err
 	}
@@ -493,38 +694,36 @@ func (w *world) buildHeader(d *Desc) (*types.Header, error) {
 	other := types.CopyHeader(h)
 	other.Extra = []byte{0x01}
 	hashes := [3]common.Hash{{}, h.Hash(), other.Hash()}
-	rounds := [3]*big.Int{nil, round, big.NewInt(2)}
-	var votes []ucon.SingleVote
-	var sigs []bls.Signature
-	for _, v := range d.Votes {
-		sv := ucon.SingleVote{VoterIdx: w.realIdx[v.V], Votes: uint32(v.J)}
-		_, sv.Proof = w.proofFor(v.V, v.Cd, v.Cs, v.Ci, v.Pb)
-		votes = append(votes, sv)
-		if v.Sb != 0 {
-			sigs = append(sigs, w.sign(v.V, payload(hashes[v.Sb], rounds[v.Sr], v.Si)))
-		}
-	}
-	asig := infinity()
-	if len(sigs) > 0 {
-		a, err := blsMgr.Aggregate(sigs)
-		if err != nil {
-			return nil, err
-		}
-		asig = a.Compress().Bytes()
-	}
-	switch d.Agg {
-	case "flip":
-		asig = append([]byte{}, asig...)
-		asig[len(asig)-1] ^= 0x01
-	case "unrelated":
-		asig = w.sign(w.nv+1, payload(hashes[1], round, d.Vidx)).Compress().Bytes()
+	rounds := [3]*big.Int{nil, round, new(big.Int).Add(round, big.NewInt(1))}
+	votes, asig, err := w.voteList(d.Votes, d.Agg, false, hashes, rounds, d.Vidx)
+	if err != nil {
+		return nil, err
 	}
 	uv := &ucon.UconValidators{RoundIndex: uint32(d.Vidx), ChamberCommitters: votes, SCAggrSig: asig}
 	if h.Validator, err = uv.ValidatorsToByte(); err != nil {
 		return nil, err
 	}
-	if h.Certificate, err = (&ucon.UconValidators{RoundIndex: uint32(d.Vidx)}).ValidatorsToByte(); err != nil {
-		return nil, err
+	switch d.Cf {
+	case "list":
+		cidx := d.CfIdx
+		if cidx == 0 {
+			cidx = d.Vidx
+		}
+		cvotes, casig, err := w.voteList(d.CVotes, d.CAgg, true, hashes, rounds, d.Vidx)
+		if err != nil {
+			return nil, err
+		}
+		if h.Certificate, err = (&ucon.UconValidators{RoundIndex: uint32(cidx), ChamberCerts: cvotes, CCAggrSig: casig}).ValidatorsToByte(); err != nil {
+			return nil, err
+		}
+	case "absent":
+		h.Certificate = []byte{}
+	case "junk":
+		h.Certificate = []byte{0xde, 0xad, 0xbe, 0xef, 0x01}
+	default: // "std" (and descriptions recorded before the certificate extension)
+		if h.Certificate, err = (&ucon.UconValidators{RoundIndex: uint32(d.Vidx)}).ValidatorsToByte(); err != nil {
+			return nil, err
+		}
 	}
 	return h, nil
 }
@@ -575,12 +774,19 @@ func verdict(ev map[string]interface{}, name string, err error, pmsg string) {
 	}
 }
 
-func (w *world) verify(d *Desc, all bool) map[string]interface{} {
+func (w *world) verify(d *Desc, all, ac bool) map[string]interface{} {
 	ev := map[string]interface{}{"ev": "Verify", "desc": d}
 	h, err := w.buildHeader(d)
 	if err != nil {
 		ev["skip"] = err.Error()
 		return ev
+	}
+	var certHdr *types.Header
+	var certVld state.ValidatorReader
+	if w.cfg.CertRound {
+		// the certificate look-back header of the chain declares d.DeclC
+		certHdr, certVld = w.certHeader(d.DeclC), w.cvld
+		w.chain.headers[certHdr.Number.Uint64()] = certHdr
 	}
 	e1, p1 := guard(func() error { return w.eng.VerifySeal(w.chain, h) })
 	verdict(ev, "seal", e1, p1)
@@ -590,7 +796,7 @@ func (w *world) verify(d *Desc, all bool) map[string]interface{} {
 		verdict(ev, "hdr", e2, p2)
 		blk := types.NewBlockWithHeader(h)
 		e3, p3 := guard(func() error {
-			return w.eng.VerifySideChainHeader(&w.chain.yp.CaravelParams, w.genesis.Header(), w.vld, nil, nil, blk, []*types.Block{w.genesis})
+			return w.eng.VerifySideChainHeader(&w.chain.yp.CaravelParams, w.seedHdr, w.vld, certHdr, certVld, blk, []*types.Block{w.parent})
 		})
 		verdict(ev, "side", e3, p3)
 		accept = accept || (e2 == nil && p2 == "") || (e3 == nil && p3 == "")
@@ -599,14 +805,15 @@ func (w *world) verify(d *Desc, all bool) map[string]interface{} {
 	if p1 != "" {
 		ev["panic"] = p1
 	}
+	if w.cfg.CertRound && ac {
+		// the light-client path: the header is verified using only its CHT certificates
+		e4, p4 := guard(func() error { return w.eng.VerifyAcHeader(w.chain, h, nil) })
+		verdict(ev, "ac", e4, p4)
+	}
 	return ev
 }
 
 // ---------------------------------------------------------------- driver
-
-type line struct {
-	Desc
-}
 
 func run(env *drive.Env) error {
 	logging.Root().SetHandler(logging.DiscardHandler())
@@ -638,7 +845,8 @@ func run(env *drive.Env) error {
 		}
 		return nil
 	}
-	// all=1: every description goes through all three entry points; all=0: VerifyHeader and VerifySideChainHeader see every third
+	// all=1: every description goes through all entry points; all=0: VerifyHeader and VerifySideChainHeader see every fourth,
+	// VerifyAcHeader every second
 	all := env.Opt("all", "1") == "1"
 	var d Desc
 	for {
@@ -650,7 +858,7 @@ func run(env *drive.Env) error {
 		if err != nil {
 			return err
 		}
-		env.Emit(w.verify(&d, all || env.T%3 == 0))
+		env.Emit(w.verify(&d, all || env.T%4 == 0, all || env.T%2 == 0))
 	}
 	return nil
 }
